@@ -326,7 +326,20 @@ class T{i}({base}):
     'generated': '''
 class T{i}({base}):
     def run(self) -> Generator:
-        yield from _value({i})
+        for item in _value({i}):
+            if isinstance(item, list) and len(item) > 1:
+                # an item handed out while it is still being filled; the result is the finished item
+                part = item[:1]
+                yield part
+                part.extend(item[1:])
+            elif isinstance(item, dict) and len(item) > 1:
+                ks = list(item)
+                part = {{ks[0]: item[ks[0]]}}
+                yield part
+                for k_ in ks[1:]:
+                    part[k_] = item[k_]
+            else:
+                yield item
 ''',
     'lazy': '''
 class T{i}({base}):
